@@ -42,6 +42,9 @@ type peerSetup struct {
 	stall    chan struct{} // closed to release stalled handlers
 	entered  chan struct{} // receives one value per stalled request
 	stallNow bool
+	// scripted sources
+	scripted   map[string][]string
+	scriptedAt map[string]int
 }
 
 func (p *peerSetup) reset() {
@@ -51,7 +54,8 @@ func (p *peerSetup) reset() {
 }
 
 func newPeerSetup() *peerSetup {
-	p := &peerSetup{local: c15New(), remote: c15New(), seen: map[string]int{}, stall: make(chan struct{}), entered: make(chan struct{}, 16)}
+	p := &peerSetup{local: c15New(), remote: c15New(), seen: map[string]int{}, stall: make(chan struct{}), entered: make(chan struct{}, 16),
+		scripted: map[string][]string{}, scriptedAt: map[string]int{}}
 	p.srv = httptest.NewServer(http.HandlerFunc(func(rw http.ResponseWriter, req *http.Request) {
 		switch {
 		case req.URL.Path == "/transform":
@@ -76,6 +80,21 @@ func newPeerSetup() *peerSetup {
 			}
 			rw.Header().Set("Content-Type", "application/json")
 			_, _ = rw.Write(body)
+		case strings.HasPrefix(req.URL.Path, "/scripted/"):
+			// a source that is not a hub: during the k-th run (the harness says which) it serves the k-th scripted
+			// document (continuation token "t<k>"), and an empty page to the request that continues from that token
+			name := strings.TrimPrefix(req.URL.Path, "/scripted/")
+			p.mu.Lock()
+			docs := p.scripted[name]
+			k := p.scriptedAt[name]
+			p.mu.Unlock()
+			tok := fmt.Sprintf("t%d", k+1)
+			rw.Header().Set("Content-Type", "application/json")
+			if k < len(docs) && req.URL.Query().Get("since") != tok {
+				_, _ = rw.Write([]byte(docs[k]))
+			} else {
+				_, _ = rw.Write([]byte(`[{"id":"@context","namespaces":{}},{"id":"@continuation","token":"` + tok + `"}]`))
+			}
 		case strings.HasPrefix(req.URL.Path, "/stall/"):
 			// a source that starts answering and then stalls
 			p.mu.Lock()
@@ -518,7 +537,198 @@ func peerRun() (res peerResult) {
 	return
 }
 
+// peerNsRun: the identifier side of jobs that talk HTTP (C13). (1) An identity transform endpoint, with and without
+// context support, fed with identifiers of every namespace shape (ending in / or #, local parts that contain / after a
+// #, nested paths; not local parts with a / in a slash namespace, which a lookup by URI splits elsewhere by design): the sink must hold each entity under the identifier the source holds it under - listing, lookup by
+// full URI and internal-id table agree. (2) A source that is not a hub and binds one prefix to different namespaces
+// in the documents of two consecutive runs of the same job object: every document is read under its own context.
+func peerNsRun() (res peerResult) {
+	defer func() {
+		if r := recover(); r != nil {
+			res.Err = fmt.Sprint("panic: ", r)
+		}
+	}()
+	p := newPeerSetup()
+	defer p.close()
+	fail := func(key, what string) {
+		for _, v := range res.Viol {
+			if v.Key == key {
+				return
+			}
+		}
+		if len(res.Viol) < 60 {
+			res.Viol = append(res.Viol, engine.Violation{Key: key, What: what, Engine: "ENUM:http-peer-ns"})
+		}
+	}
+	trig := func(jt string) []interface{} {
+		return []interface{}{map[string]interface{}{"triggerType": "cron", "jobType": jt, "schedule": "0 0 1 1 *"}}
+	}
+	objs := map[string]*jobs.JJob{}
+	run := func(id string) string {
+		jo := objs[id]
+		if jo == nil {
+			var err error
+			if jo, err = p.local.jw.JLoadStoredJob(id); err != nil {
+				return "harness: " + err.Error()
+			}
+			objs[id] = jo
+		}
+		return jo.RunSync()
+	}
+	aliases := func(cfg string) {
+		if al := server.VURIAliases(p.local.jw.W.Store); len(al) > 0 {
+			fail("C13:http-two-internal-ids-for-one-uri|"+cfg, fmt.Sprintf("%s: after the run the identifier table holds one URI under several identifier strings: %v", cfg, al))
+		}
+	}
+	lookups := func(cfg, src, dst string) {
+		d := p.local.jw.W.Dsm.GetDataset(src)
+		if d == nil {
+			return
+		}
+		r, err := d.GetEntities("", -1)
+		if err != nil {
+			return
+		}
+		for _, e := range r.Entities {
+			n := p.local.normEntity(e)
+			if !strings.HasPrefix(n.ID, "http") {
+				continue // only http(s) URIs are compacted on lookup
+			}
+			got, err := p.local.jw.W.Store.GetEntity(n.ID, []string{dst}, true)
+			if err != nil || got == nil || got.Recorded == 0 {
+				fail("C13:http-entity-not-found-by-its-uri|"+cfg, fmt.Sprintf("%s: the sink lists %s but a lookup by that URI scoped to the sink finds nothing (err %v)", cfg, n.ID, err))
+				continue
+			}
+			if g := p.local.normEntity(got); g.String() != n.String() {
+				fail("C13:http-entity-differs-by-uri|"+cfg, fmt.Sprintf("%s: lookup of %s in the sink gives %s, the source holds %s", cfg, n.ID, g, n))
+			}
+		}
+	}
+	n := 0
+	// (1) identity transform, identifiers of every shape
+	shapes := `[{"id":"@context","namespaces":{"_":"http://peer/ns/","h":"http://peer/ns/handbook#","g":"http://peer/ns/a/b/"}},` +
+		`{"id":"h:chapter/7","props":{"h:title/long":"x","g:k":1},"refs":{"h:part/of":"h:book","g:r":"g:deeper"}},` +
+		`{"id":"h:book","props":{"_:n":1},"refs":{}},{"id":"g:deeper","props":{},"refs":{"_:r":"h:chapter/7"}},` +
+		`{"id":"plain","props":{"n":2},"refs":{"r":"h:chapter/7"}}]`
+	for _, ctx := range []bool{false, true} {
+		for _, jt := range []string{"incremental", "fullsync"} {
+			for _, b := range []int{1, 10} {
+				n++
+				res.Cases++
+				lds, zds := fmt.Sprintf("nt%d", n), fmt.Sprintf("nu%d", n)
+				cfg := fmt.Sprintf("identity transform endpoint supportContext=%v jobType=%s batch=%d identifiers of every namespace shape", ctx, jt, b)
+				for _, ds := range []string{lds, zds} {
+					if _, err := p.local.jw.W.Dsm.CreateDataset(ds, nil); err != nil {
+						res.Err = err.Error()
+						return
+					}
+				}
+				if code, body, pn := p.local.request(http.MethodPost, "/datasets/"+lds+"/entities", shapes); code != 200 || pn != "" {
+					res.Err = fmt.Sprintf("load: %d %s %s", code, short(string(body)), pn)
+					return
+				}
+				id, err := p.addJob(map[string]interface{}{"id": fmt.Sprintf("ntr-%d", n), "title": fmt.Sprintf("ntr-%d", n), "paused": true, "batchSize": b,
+					"source":    map[string]interface{}{"Type": "DatasetSource", "Name": lds, "LatestOnly": true},
+					"transform": map[string]interface{}{"Type": "HttpTransform", "Url": p.srv.URL + "/transform", "SupportContext": ctx},
+					"sink":      map[string]interface{}{"Type": "DatasetSink", "Name": zds}, "triggers": trig(jt)})
+				if err != nil {
+					fail("C13:http-job-rejected|"+cfg, cfg+": the definition was rejected: "+err.Error())
+					continue
+				}
+				for runNo := 1; runNo <= 2; runNo++ {
+					if pn := run(id); pn != "" {
+						fail("C13:http-run-panics|"+cfg, fmt.Sprintf("%s: run %d panics: %s", cfg, runNo, pn))
+						break
+					}
+					if le, ok := p.lastError(id); !ok || le != "" {
+						fail("C13:http-run-fails|"+cfg, fmt.Sprintf("%s: run %d did not end as a recorded success (%q)", cfg, runNo, le))
+						break
+					}
+					if a, z := peerView(p.local, lds), peerView(p.local, zds); strings.Join(a, "\n") != strings.Join(z, "\n") {
+						fail("C13:http-transform-copy-differs|"+cfg, fmt.Sprintf("%s: after run %d the sink %v differs from the source %v", cfg, runNo, z, a))
+					}
+					lookups(cfg, lds, zds)
+					aliases(cfg)
+				}
+			}
+		}
+	}
+	// (2) a scripted source that re-binds a prefix from one run to the next
+	for _, jt := range []string{"incremental", "fullsync"} {
+		for _, b := range []int{1, 10} {
+			n++
+			res.Cases++
+			name, zds := fmt.Sprintf("s%d", n), fmt.Sprintf("nz%d", n)
+			cfg := fmt.Sprintf("scripted source, prefix a bound to another namespace in the second run, jobType=%s batch=%d", jt, b)
+			if _, err := p.local.jw.W.Dsm.CreateDataset(zds, nil); err != nil {
+				res.Err = err.Error()
+				return
+			}
+			doc := func(ns, id string, v int, tok string) string {
+				return fmt.Sprintf(`[{"id":"@context","namespaces":{"a":"%s"}},{"id":"a:%s","props":{"a:kind":%d,"a:name":"%s"},"refs":{"a:rel":"a:%s"}},{"id":"@continuation","token":"%s"}]`, ns, id, v, id, id, tok)
+			}
+			nsA, nsB := fmt.Sprintf("http://a.example/%d/schema/", n), fmt.Sprintf("http://b.example/%d/schema/", n)
+			p.mu.Lock()
+			p.scripted[name] = []string{doc(nsA, "x1", 1, "t1"), doc(nsB, "y1", 2, "t2"), doc(nsA, "x2", 3, "t3")}
+			p.scriptedAt[name] = 0
+			p.mu.Unlock()
+			id, err := p.addJob(map[string]interface{}{"id": fmt.Sprintf("nsc-%d", n), "title": fmt.Sprintf("nsc-%d", n), "paused": true, "batchSize": b,
+				"source": map[string]interface{}{"Type": "HttpDatasetSource", "Url": p.srv.URL + "/scripted/" + name},
+				"sink":   map[string]interface{}{"Type": "DatasetSink", "Name": zds}, "triggers": trig(jt)})
+			if err != nil {
+				fail("C13:http-job-rejected|"+cfg, cfg+": the definition was rejected: "+err.Error())
+				continue
+			}
+			want := map[string]string{}
+			for runNo, w := range []struct {
+				ns, id string
+				v      int
+			}{{nsA, "x1", 1}, {nsB, "y1", 2}, {nsA, "x2", 3}} {
+				p.mu.Lock()
+				p.scriptedAt[name] = runNo
+				p.mu.Unlock()
+				if pn := run(id); pn != "" {
+					fail("C13:http-run-panics|"+cfg, fmt.Sprintf("%s: run %d panics: %s", cfg, runNo+1, pn))
+					break
+				}
+				if le, ok := p.lastError(id); !ok || le != "" {
+					fail("C13:http-run-fails|"+cfg, fmt.Sprintf("%s: run %d did not end as a recorded success (%q)", cfg, runNo+1, le))
+					break
+				}
+				if jt == "fullsync" {
+					want = map[string]string{} // a fullsync run replaces what the sink held
+				}
+				want[w.ns+w.id] = dEnt{ID: w.ns + w.id, Props: map[string]interface{}{w.ns + "kind": float64(w.v), w.ns + "name": w.id}, Refs: map[string]interface{}{w.ns + "rel": w.ns + w.id}}.String()
+				d := p.local.jw.W.Dsm.GetDataset(zds)
+				r, err := d.GetEntities("", -1)
+				if err != nil {
+					res.Err = err.Error()
+					return
+				}
+				got := map[string]string{}
+				for _, e := range r.Entities {
+					if e.IsDeleted {
+						continue
+					}
+					ne := p.local.normEntity(e)
+					got[ne.ID] = ne.String()
+				}
+				for uri, ws := range want {
+					if got[uri] != ws {
+						fail("C13:http-source-document-read-under-another-context|"+cfg, fmt.Sprintf("%s: after run %d the sink holds %q for %s; the document of that run, read under its own context, denotes %s", cfg, runNo+1, got[uri], uri, ws))
+					}
+				}
+				aliases(cfg)
+			}
+		}
+	}
+	return
+}
+
 func init() {
+	engine.RegisterWorker("http-peer-ns", func(args []string) {
+		engine.ServeWorker(func(task []byte) interface{} { return peerNsRun() })
+	})
 	engine.RegisterWorker("http-peer", func(args []string) {
 		engine.ServeWorker(func(task []byte) interface{} { return peerRun() })
 	})
